@@ -255,7 +255,7 @@ def make_body(job):
     elif op == 'complete':
       v = job['v']
       assume(c.out[v] >= 1)
-      s._HeapBalancerSink__Put(c.nodes[v])
+      B.release_method(s)(c.nodes[v])
       check('complete.total', s._total == c.total - 1)
       partition_ok(c, 'complete')
       nm = len(c.members)
@@ -268,7 +268,7 @@ def make_body(job):
       dn = ApertureBalancerSink.Node(ch, Idle + fresh_int('out_drain', 1, B.OUT_MAX), -1, Ep('gone', 1))
       assume(c.total >= dn.load - Idle)        # its outstanding requests are part of the total
       out = dn.load - Idle
-      s._HeapBalancerSink__Put(dn)
+      B.release_method(s)(dn)
       cover('drain-completes')
       check('drain.total-decremented', s._total == c.total - 1)
       check('drain.close-iff-last', siff(ch.closed == 1, out == 1))
